@@ -224,7 +224,7 @@ def main(repo, data_dir, out, order='f', mode='full'):
                         wn.export([lx], p, version=v)
                         data = open(p, 'rb').read()
                         t['export:%s:%s' % (lx.specifier(), v)] = [
-                            hashlib.sha256(data).hexdigest(), data.decode('utf-8')]
+                            hashlib.sha256(data).hexdigest(), data.decode('utf-8', 'replace')]
                         res = wn.lmf.load(p, progress_handler=None)
                         for lex in res['lexicons']:
                             rep = wn.validate.validate(lex, progress_handler=None)
@@ -262,7 +262,7 @@ def main(repo, data_dir, out, order='f', mode='full'):
         conn.close()
     wn._db.pool.clear()
     d1 = dump()
-    with open(out, 'w') as f:
+    with open(out, 'w', encoding='utf-8') as f:
         json.dump({'reps': reps, 'dump_before': d0, 'dump_after': d1}, f, ensure_ascii=False)
 
 
